@@ -254,7 +254,11 @@ def replay_guard_block(a):
         return {"reproduced": False, "note": "native build failed"}
     data = '{"L": [ {"x": 1}, {"x": 2} ],\n "E": [],\n "M": [ {"x": 1}, {"y": 1} ]}\n'
     cases = [("L[ x == 9 ] { x == 1 }", "SKIP"), ("L[ x == 9 ] !empty { x == 1 }", "FAIL"),
-             ("M[*].x { this == 1 }", "FAIL"), ("some M[*].x { this == 1 }", "PASS"), ("some M[*].x { this == 5 }", "FAIL")]
+             ("M[*].x { this == 1 }", "FAIL"), ("some M[*].x { this == 1 }", "PASS"), ("some M[*].x { this == 5 }", "FAIL"),
+             # one selected value missing (unresolved = FAIL) next to a resolved one whose block is SKIP / PASS / FAIL
+             ("some M[*].x {\n    when this == 9 { this == 1 }\n  }", "FAIL"), ("M[*].x {\n    when this == 9 { this == 1 }\n  }", "FAIL"),
+             ("some M[*].x {\n    when this == 1 { this == 1 }\n  }", "PASS"), ("M[*].x {\n    when this == 1 { this == 1 }\n  }", "FAIL"),
+             ("some M[*].x {\n    when this == 1 { this == 2 }\n  }", "FAIL"), ("some M[*].z { this == 1 }", "FAIL"), ("M[*].z { this == 1 }", "FAIL")]
     for outs in itertools.product(("PASS", "FAIL", "SKIP"), repeat=2):
         for some in (False, True):
             cases.append((("some " if some else "") + "L[*] {\n    " + _body(outs, "x") + "\n  }", _fold(outs, some)))
